@@ -473,12 +473,13 @@ pub fn c14(o: &Opts) -> i32 {
         par::for_each(&games, par::threads(), |_i, (root, path)| { if ctx.budget_used() > 0.97 { return; } let mut l = Local::default(); c14_notation_game(&ctx, &mut l, root, path); l.flush(&ctx); },
             |_i, u, msg| ctx.violation(&format!("c14:panic:{}", par::last_panic_location()), &format!("engine panicked: {}", msg), json!({"root_fen": u.0.to_fen(), "path": path_str(&u.0, &u.1)})));
     }
-    if !q || std::env::var("VERIF_C14_CLI").is_ok() { super::cli::c14_cli(&ctx, o); }
+    // command-line level: the real binary over stdin (a handful of games in the quick tier, more in thorough)
+    if o.replay.is_none() { super::cli::c14_cli(&ctx, o); }
     ctx.sample(json!({"position": "after 1.e4 e5 2.Nf3 entered as coordinate pairs through the Game API", "inputs": ["all 4096 from/to pairs", "every standard label, e.g. Nc6", "near misses: Nxc6, Nc6+, Nbc6, N8c6, Ng8c6, labels legal only for White, labels of the previous position, junk"]}));
     ctx.finish(ctx.counter("inputs_tried"),
         "positions along seeded games played through the Game API (coordinate entry + caller-side turn toggle), corpus positions and like-piece/promotion/castling-rich set-ups; per position: all 4096 coordinate pairs (a seeded 1/16 sample of the illegal ones on most positions), every standard label of a legal move, and near-miss strings. Classes: MUST-accept (legal pair / standard SAN), MUST-reject (no legal move under the most lenient reading), DON'T-CARE (uniquely identifying but over/under-decorated: only conditional checks). Accepted => position is the reference successor of the denoted move (queen for a promoting pair), history grew by exactly that move, turn unchanged; rejected => full snapshot and history unchanged. distinct_nontrivial = distinct positions exercised",
         &["lenient reading per DESIGN A.3"],
-        &[("positions_with_all_4096_pairs", if q { 15 } else { 150 }), ("standard_labels_tried", 2000), ("near_miss_strings_tried", 5000), ("inputs_accepted", 2000), ("plies_typed_in_notation", 1000), ("out_of_turn_or_stale_labels_offered", 5000)])
+        &[("positions_with_all_4096_pairs", if q { 15 } else { 150 }), ("standard_labels_tried", 2000), ("near_miss_strings_tried", 5000), ("inputs_accepted", 2000), ("plies_typed_in_notation", 500), ("out_of_turn_or_stale_labels_offered", 2000)])
 }
 
 // ======================================================================================= C15
@@ -593,6 +594,7 @@ pub fn c15(o: &Opts) -> i32 {
                     if !matches!(par::guarded(|| game.apply_chess_move_by_from_to_coordinates(bb(m.from), bb(m.to))), Ok(Ok(_))) { ctx.count("history_could_not_be_entered_(C14_business)", 1); break; }
                     game.board_mut().toggle_turn();
                     p = p.make(m);
+                    if i + 1 == path.len() && (game.board().halfmove_clock() as u64) < 90 { ask_engine(&ctx, &mut game, &p, 1, "after-a-history", &json!({"root_fen": root.to_fen(), "path": path_str(root, path), "fen": p.to_fen(), "depth": depth})); }
                 }
                 ctx.distinct(hash_bytes(path_str(root, path).join(" ").as_bytes()));
             }
